@@ -312,8 +312,13 @@ def _leaf_np(p):
     return leaf_values(tuple(p["shape"]), p["dtype"], p["vals"], p["seed"])
 
 
+SRC_LOG = None  # set to a list by checks that audit the user's source arrays
+
+
 def _leaf_da(p):
     a = _leaf_np(p)
+    if SRC_LOG is not None:
+        SRC_LOG.append((a, a.copy()))
     return da().from_array(a, chunks=tuple(tuple(c) for c in p["chunks"]))
 
 
